@@ -6,6 +6,8 @@
 
     selectraw <k> <screen plates> <batch ids as Python ints, -1 placeholders allowed>
                                                   -> eligible plate ids of select_next_plate with the raw id list
+    argmin <table id:score;... (storage order, scores as integers)> <allowed ids>
+                                                  -> the plate id plate_id_with_minimum_score returns | none
     rounds <k> <screen plates at the start> <finished batches b1/b2/.. (ids comma separated) | -> <batch ids>
                                                   -> eligible plate ids after the finished batches were marked observed (set_observed)
 
@@ -52,6 +54,17 @@ def handle : List String → Option String
     let scr ← parsePlates? scr
     let ids ← parseIntList? ids
     some (showResult (selectNext k scr ids))
+  | ["argmin", table, allowed] => do
+    let rows ← if table == "-" then some [] else (table.splitOn ";").mapM (fun t => match t.splitOn ":" with
+      | [a, b] => do
+        let a ← parseNat? a
+        let b ← parseInt? b
+        some (a, b)
+      | _ => none)
+    let allowed ← parseNatList? allowed
+    match argminAllowed rows allowed with
+    | some i => some (toString i)
+    | none => some "none"
   | ["rounds", k, scr, done, ids] => do
     let k ← parseNat? k
     let scr ← parsePlates? scr
